@@ -30,6 +30,7 @@ type voteSpec struct {
 }
 
 func runC25(c *core.Ctx) {
+	checkVoteIdCoversPayload(c, "C25.vote-id")
 	checkDecoderRestoresField(c, "C25.once", pkSigM, "SigInfo", "Status", "NextBool")
 	checkDecoderRestoresField(c, "C25.once", pkVote, "VoteInfo", "Status", "NextBool")
 	for _, sp := range []voteSpec{
